@@ -198,11 +198,8 @@ theorem bankMsgSend_steps {cfg : Cfg} {c c' : Ctx} {to denom : String} {amt : In
     Ctx.Steps c c' [.xfer cfg.orbAddr dst denom amt.toNat] := by
   unfold bankMsgSend at h
   simp only [hto] at h
-  split at h
-  · cases h
-  · split at h
-    · cases h
-    · exact Ctx.send_steps h
+  repeat' (first | (cases h; done) | split at h)
+  exact Ctx.send_steps h
 
 /-- The forwarder on the chain's wiring makes exactly the moves of the payload's route, for exactly the
 amount and denomination left by the last action. -/
